@@ -788,7 +788,7 @@ func pureCall(c *ssa.CallCommon) bool {
 		switch name {
 		case "Context.ChainID", "Context.BlockTime", "Context.BlockHeight", "Context.HeaderHash", "Context.ExecMode", "Context.CometInfo", "Context.VoteInfos",
 			"Context.EventManager", "Context.ConsensusParams", "BlockInfo.GetProposerAddress", "BlockInfo.GetEvidence", "error.Error",
-			"Int.BigInt", "Int.IsZero", "Int.LT", "Int.GT", "Int.GTE", "Int.LTE", "Int.Equal", "Int.IsNegative", "Int.IsUint64", "Int.Uint64", "Int.Abs",
+			"Int.IsZero", "Int.LT", "Int.GT", "Int.GTE", "Int.LTE", "Int.Equal", "Int.IsNegative", "Int.IsUint64", "Int.Uint64", "Int.Abs",
 			"Address.Bytes", "Hash.Bytes", "Time.Add", "Time.Sub", "Time.After", "Time.Before", "Coins.AmountOf", "Coins.IsAllGTE", "ConsAddress.Bytes":
 			return true
 		}
